@@ -34,6 +34,7 @@ c.modifies()
 c.ensures("result is uf('redirect_location', self) and (result is None or result is False or isinstance(result, str))")
 
 c = contract(f"{R}.__init__", prop="C04")
+c.props.update({"C05", "C06"})
 c.types(total="any", connect="any", read="any", redirect="any", status="any", other="any", allowed_methods="any",
         status_forcelist="any", backoff_factor="any", backoff_max="any", raise_on_redirect="any", raise_on_status="any",
         history="any", respect_retry_after_header="any", remove_headers_on_redirect="any", backoff_jitter="any")
@@ -53,9 +54,10 @@ c.ensures("self.allowed_methods is allowed_methods and self.backoff_factor is ba
 c.ensures("implies(status_forcelist, self.status_forcelist is status_forcelist) and isinstance(self.status_forcelist, (set, frozenset))"
           " and implies(not status_forcelist, not self.status_forcelist)", "forcelist")
 c.ensures("implies(history, self.history is history) and isinstance(self.history, tuple) and implies(not history, len(self.history) == 0)", "history")
-c.ensures("isinstance(self.remove_headers_on_redirect, frozenset)", "remove-headers-frozenset")
+c.ensures("isinstance(self.remove_headers_on_redirect, frozenset) and uf('lowered_src', self.remove_headers_on_redirect) is remove_headers_on_redirect", "remove-headers=lower-cased-image-of-the-argument")
 
 c = contract(f"{R}.increment", prop="C04")
+c.props.update({"C05", "C06"})
 c.types(method="opt:str", url="any", response="opt:BaseHTTPResponse", error="opt:Exception", _pool="any", _stacktrace="any")
 c.requires("valid_retry(self)")
 c.requires("implies(isinstance(error, ProxyError), isinstance(error.original_error, Exception))")
@@ -93,6 +95,7 @@ c.ensures("result == spec_is_retry(self, method, status_code, has_retry_after)",
 c.ensures("implies(not method_retryable(self, method), result is False)", "non-idempotent-never-retried-on-status")
 
 c = contract(f"{R}.from_int", prop="C04")
+c.props.update({"C05"})
 c.types(retries="any", redirect="any", default="any")
 c.requires("retries is None or retries is False or isinstance(retries, (int, Retry))")
 c.requires("default is None or default is False or isinstance(default, (int, Retry))")
